@@ -87,22 +87,62 @@ def logic_case(draw, tier):
         if side == 'promo_left':
             kinds = [k for k in kinds if k in ('str_bin', 'str_hex', 'bytes', 'bytearray', 'list', 'tuple', 'memoryview', 'array')]
         case['other'] = draw(st.sampled_from(kinds))
+    if case['cls'] in MUTABLE and side in ('self', 'obj') and draw(st.integers(0, 2)) == 0:
+        # the left operand has just been produced by an in-place operator (whole-length shifts and friends return fresh constants internally)
+        case['prep'] = draw(st.sampled_from(['ilshift_all', 'irshift_all', 'iand_zeros', 'ior_ones', 'ixor_self', 'ilshift_1', 'imul_1', 'invert']))
     return case
+
+
+def apply_prep(x, a, how):
+    """in-place preparation of a mutable operand; returns its new content"""
+    n = len(a)
+    if n == 0:
+        return a
+    if how == 'ilshift_all':
+        x <<= n + 3
+        return '0' * n
+    if how == 'irshift_all':
+        x >>= n
+        return '0' * n
+    if how == 'iand_zeros':
+        x &= mk('Bits', '0' * n)
+        return '0' * n
+    if how == 'ior_ones':
+        x |= mk('Bits', '1' * n)
+        return '1' * n
+    if how == 'ixor_self':
+        x ^= mk('Bits', a)
+        return '0' * n
+    if how == 'ilshift_1':
+        x <<= 1
+        return a[1:] + '0'
+    if how == 'imul_1':
+        x *= 1
+        return a
+    x.invert()
+    return ''.join('1' if c == '0' else '0' for c in a)
 
 
 def run_logic(case):
     bs = bitstring_module()
     op, a, b = case['op'], case['a'], case['b']
     side = case['side']
+    prep = case.get('prep')
     if side == 'promo_left':
         x = make_promotable(case['other'], a)
         y = build_route(case['cls'], b, *case['route'])
         keep = [(y, b)]
     elif side == 'self':
         x = y = build_route(case['cls'], a, *case['route'])
+        if prep:
+            a = b = apply_prep(x, a, prep)
+            require(x.bin == a, 'in-place preparation differs from its model', prep=prep, got=x.bin[:60], expected=a[:60])
         keep = [(x, a)]
     else:
         x = build_route(case['cls'], a, *case['route'])
+        if prep:
+            a = apply_prep(x, a, prep)
+            require(x.bin == a, 'in-place preparation differs from its model', prep=prep, got=x.bin[:60], expected=a[:60])
         y = mk(case['other'], b) if side == 'obj' else make_promotable(case['other'], b)
         keep = [(x, a)] + ([(y, b)] if side == 'obj' else [])
     # a stream operand's read position is part of the operand: park it somewhere and look again afterwards
